@@ -51,6 +51,9 @@ def run(chk, facts_dir, tier):
     chk.rule("R9.6", "HISTORY CURSOR: in the history readers every store to the resume cursor (`*from_sequence` / `*from_version`) is `x + 1` where x is the partition sequence / "
                      "stream version of the event handed to the send_record that precedes it, and every send_record is followed by such a store before the next event is taken; "
                      "the live filter has_seen starts at this cursor, so a cursor left inside a delivered transaction delivers its tail twice")
+    chk.rule("R9.7", "ONE RECEIVER ACROSS THE HAND-OVER: the broadcast receiver a subscription listens on in its live phase is the one that was subscribed when the subscription was "
+                     "created, before the history read: no function of Subscription stores to `broadcast_rx` or calls resubscribe / subscribe on the event channel. Events confirmed "
+                     "while the history is replayed exist only in that receiver's buffer (the history iterators read a snapshot)")
     chk.rule("R9.5", "WHO-MAY send on the event broadcast channel: the confirmation actor's gated loops (C07 R7.2) and "
                      "SubscriptionManager::broadcast (which has no caller)")
     chk.not_decided += ["the hand-over race between history and live phases and broadcast lag (schedules)",
@@ -151,6 +154,24 @@ def run(chk, facts_dir, tier):
                 else:
                     chk.ok("R9.6", "%s: every delivered record advances the cursor" % name, b.where(stt["line"]))
     chk.floor("R9.6", n_cur, 3)
+
+    # ---------------- R9.7 the receiver is never replaced
+    n97 = 0
+    for p97, b97 in sorted(prog.bodies.items()):
+        root97 = b97.root or b97.path
+        if not root97.startswith(SUB):
+            continue
+        n97 += 1
+        from ..util import field_stores as _fs
+        st97 = [x for x in _fs(b97, "broadcast_rx", "Subscription")]
+        rs97 = [t for bi, t in b97.calls() if (b97.callee_decl(t) or "").endswith("broadcast::Receiver::<T>::resubscribe") or (b97.callee_decl(t) or "").endswith("broadcast::Sender::<T>::subscribe")]
+        if st97 or rs97:
+            line = (st97[0][2]["line"] if st97 else rs97[0]["line"])
+            chk.fail("R9.7", root97, "receiver-replaced", "the subscription replaces its broadcast receiver (%s): everything broadcast since it subscribed - in particular events confirmed "
+                     "during the history replay - is dropped, and the next live event arrives after a gap" % ("store to broadcast_rx" if st97 else "resubscribe/subscribe"), b97, line)
+    if n97:
+        chk.ok("R9.7", "no function of Subscription replaces the broadcast receiver (%d bodies)" % n97, "")
+    chk.floor("R9.7", n97, 5)
 
     # every caller of send_record is one of the analysed functions or `run`
     allowed_callers = {SUB + n for n in HISTORY} | {SUB + "run"}
